@@ -174,3 +174,21 @@ Proof.
 Qed.
 
 End Push.
+
+(* a push opening never writes under a message identifier - in particular not under the one the push
+   payload names, which its sender chooses: whatever was (not) stored under ANY identifier before is
+   (not) stored under it afterwards, for every push payload, genuine or not *)
+Lemma push_keeps_cid_keys Nr s e cid c : snd (push_step Nr s e cid) (KCid c) = s (KCid c).
+Proof.
+  unfold push_step.
+  destruct (negb (ref_known s (e_group e) (e_dev e) (e_ctr e))); [reflexivity|].
+  destruct (match get_cid s cid with
+            | Some mk => Some (mk, false)
+            | None => match get_pre s (e_group e) (e_dev e) (e_ctr e) with Some mk => Some (mk, true) | None => None end
+            end) as [[mk newly]|]; [|reflexivity].
+  destruct (negb (msgkey_eqb mk (e_key e))); [reflexivity|].
+  destruct (negb (e_signer e =? e_dev e)); [reflexivity|].
+  unfold precompute_next. destruct (get_chain s (e_group e) (e_dev e)) as [[c0 ck]|]; [|reflexivity].
+  destruct (derive ck) as [ck1 mk1]. cbn [snd]. unfold refs_update, put. cbn [apply_mut fold_left fst snd dkey_eqb].
+  unfold put. cbn [dkey_eqb]. reflexivity.
+Qed.
